@@ -19,7 +19,8 @@ BOUNDS = ("Cell grid: comment style {; ( [ < \" ' /* #} x entry point that accep
           "(0..0x10FFFF). Oracle: an independent lexer splits the output at CR/LF and removes "
           "comments under the configured style; the executable words per line and the number of "
           "lines must equal those of the same call with the text 'x'. Longer texts are outside the "
-          "claim (one line break or one delimiter already fits).")
+          "claim (one line break or one delimiter already fits). Plus history cells: the same text "
+          "before and after a run-time change of the comment style.")
 ASSUMPTIONS = [
     "bytes(line, 'utf-8') in GCodeCore.write is stubbed as an injective encoding (text kept as is)",
     "a physical line ends at LF, CR or CRLF (what G-code receivers do), whatever ending is configured",
@@ -142,6 +143,58 @@ def _make(style, entry, length, ending):
     return h
 
 
+def _make_switch(style_a, style_b, length):
+    """History cell: the same text is used before and after the comment style is changed at
+    run time (public g.format.set_comment_symbols); the output after the switch is judged
+    under the new style."""
+    from gscrib import GCodeBuilder
+
+    def run(text):
+        TOKENS.clear()
+        g = GCodeBuilder(comment_symbols=style_a, line_endings="\\n")
+        rec = Rec()
+        g.add_writer(rec)
+        err = None
+        try:
+            g.comment(text)
+            g.move(x=1.5, comment=text)
+            rec.clear()
+            g.format.set_comment_symbols(style_b)
+            g.comment(text)
+            g.move(x=2.5, comment=text)
+            g.tool_off()
+        except Exception as e:  # noqa: BLE001
+            err = e
+        return rec.text(), err
+
+    def h(t):
+        ref_out, ref_err = run("x")
+        ref = lex(ref_out, style_b)
+        if ref_err is not None or not isinstance(ref, list):
+            return V("harness-reference-run-failed", lambda: f"{ref_err!r} {ref!r} {ref_out!r}")
+        if ref[0] != [] or len(ref) != 3 or ref[1][:1] != ["G1"] or len(ref[1]) != 2:
+            return V("style-switch-comment-not-a-comment-under-new-style",
+                     lambda: f"after switching {style_a!r} -> {style_b!r} the text 'x' gives {ref!r}: "
+                             f"output={ref_out!r}")
+        out, err = run(t)
+        if err is not None:
+            msg = f"{type(err).__name__}: {err}"
+            return V("style-switch-unexpected-exception", lambda: f"{msg}; text={t!r}")
+        got = lex(out, style_b)
+        if not isinstance(got, list):
+            return V("style-switch-malformed-output",
+                     lambda: f"{got[1]}: output={out!r} for text={t!r} ({style_a!r} -> {style_b!r})")
+        if got != ref:
+            return V("style-switch-executable-words-changed",
+                     lambda: f"after switching {style_a!r} -> {style_b!r}: words {ref!r} with 'x' became "
+                             f"{got!r} with text={t!r}: output={out!r}")
+        reached("same")
+        return None
+
+    h.__annotations__ = {"t": FixedStr(length)}
+    return h
+
+
 def cells(tier):
     out = []
     quick = tier == "quick"
@@ -157,4 +210,12 @@ def cells(tier):
                     out.append(Cell(name, _make(style, entry, length, ending),
                                     budget_s=150 if quick else 900, per_path_s=20,
                                     entry=f"GCodeBuilder.{entry.split('-')[0]}"))
+    pairs = [(";", "("), ("(", ";"), ("[", "("), ('"', "#")]
+    if not quick:
+        pairs += [("#", "/*"), ("/*", "'"), ("<", "["), ("'", ";")]
+    for a, b in pairs:
+        for length in ((1,) if quick else (1, 2)):
+            out.append(Cell(f"style-switch|{a}->{b}|len={length}", _make_switch(a, b, length),
+                            budget_s=150 if quick else 900, per_path_s=20,
+                            entry="DefaultFormatter.set_comment_symbols + comment"))
     return out
